@@ -13,7 +13,7 @@ import (
 // allocation and the lifetime actually armed; a retransmission gets the same answer without creating
 // anything; another Allocate on the 5-tuple gets 437 and changes nothing.
 //
-//verif:props=C19,C06,C03,C04,C15 replay=model bounds="REQUESTED-TRANSPORT arbitrary byte or absent; LIFETIME absent/any 2^32; default lifetime 1..2^32-1 s; REQUESTED-ADDRESS-FAMILY absent/any byte; source IPv4/IPv6; arbitrary credential verdicts; relay allocation may fail; then a second Allocate with the same or another transaction id"
+//verif:props=C19,C06,C03,C04,C15 replay=model bounds="REQUESTED-TRANSPORT arbitrary byte or absent; LIFETIME absent/any 2^32; default lifetime 1..2^32-1 s; REQUESTED-ADDRESS-FAMILY absent/any byte; source IPv4/IPv6; arbitrary credential verdicts; relay allocation may fail; then a second Allocate with the same or another transaction id, by the same or another user"
 func VerifHarness_C19_allocate() {
 	s := vNewSrv(true, false)
 	s.lt = time.Duration(vU32()) * time.Second
@@ -102,6 +102,9 @@ func VerifHarness_C19_allocate() {
 		vAdvance(vI64())
 		// fresh verdicts for the second request
 		s.nonce.validated, s.auth.calls = 0, 0
+		if !retrans && vBool() {
+			s.auth.userID = vStr("another-user") // a different Allocate may also come from another user behind the same 5-tuple
+		}
 		_ = handleAllocateRequest(req, msg2)
 		r2 := s.response(req, msg2, stun.MethodAllocate)
 		vAssert(s.env.M.GetAllocation(ft) == a, "C19.second_allocate_keeps_the_allocation")
